@@ -182,6 +182,15 @@ def inverse_topology(outer, update, topology, inverse=None, multi_updates=True):
                     inner = outer
 
                 for child, child_update in update.items():
+                    if isinstance(child, str) and child.startswith('_'):
+                        # a structural update (_add, _delete, ...) of
+                        # the store itself, not the update of a child
+                        inverse = update_in(
+                            inverse,
+                            inner,
+                            lambda current, key=child, value=child_update:
+                            deep_merge_multi_update(current, {key: value}))
+                        continue
                     inverse = inverse_topology(
                         inner + (child,),
                         update[child],
